@@ -8,3 +8,4 @@ import Stingray.Props.C02
 import Stingray.Props.C18
 import Stingray.Props.C04
 import Stingray.Props.C01
+import Stingray.Props.C06
